@@ -78,7 +78,8 @@ Definition cstep (c : cfg) (s : state) (lg : logs) (ce : cevent) : state * logs 
   match ce with
   | CEv e =>
       match e with
-      | EResult _ | EStop (Some _) => (s, lg, [])
+      | EResult _ | EStop (Some _) | EResultOmit _ | EBroken _ => (s, lg, [])   (* results come from the cluster (CAnswer ..);
+                                                                                 the honest cluster omits nothing, F-C01-5 apart *)
       | _ => let '(s', o) := step c s e in (s', lg, [(e, o)])
       end
   | CAnswer pl =>
